@@ -167,7 +167,7 @@ def gen_plan(rng, profile="accounting", tier="quick", knobs=None):
             in_batch = True
         elif "upd" in o or kind == "flatten":
             pass
-        if rng.random() < 0.1 and o.get("upd", True) and kind in ("alloc", "rebal", "close", "transact", "adjust", "spread", "roundtrip"):
+        if rng.random() < 0.25 and o.get("upd", True) and kind in ("alloc", "rebal", "close", "transact", "adjust", "spread", "roundtrip"):
             o["fresh"] = [rng.randrange(64), rng.randrange(64), rng.random() < 0.5, rng.randrange(64)]
         ops.append(o)
     if in_batch:
@@ -1115,8 +1115,9 @@ class TreeSim(taps.Sim):
     def freshness(self, spec):
         """pending changes (stale flag set): reading a property directly must equal reading it after an explicit update."""
         root = self.root
-        if not root.stale:
-            return
+        # (whether changes are pending is decided by the history - an operation has just completed - not by the
+        # implementation's own stale flag: a change that failed to raise the flag is exactly what must be seen)
+        self.fire("freshness_fork_stale" if root.stale else "freshness_fork_not_flagged")
         mv = self.model.value(self.model.root)
         if not root.fixed_income and not root.bankrupt and not (mv > REL * self.model.gross()):
             # the next update would declare bankruptcy and liquidate: that is a new event performed by the
